@@ -343,7 +343,8 @@ def run_batch(spec):
 
     signal.signal(signal.SIGALRM, _alarm)
     for n in range(spec["n"]):
-        c = fragment.generate(rng, {"max_subs": 3, "recursion": rng.random() < 0.2, "max_stmts": 3})
+        c = fragment.generate(rng, {"max_subs": 3, "recursion": rng.random() < 0.2, "max_stmts": 3,
+                                    "p_subs_first": 0.35, "p_call_last": 0.4})
         viols, nontrivial = [], []
         signal.alarm(120)
         try:
